@@ -3,6 +3,7 @@
 From Coq Require Import List NArith ZArith Arith Bool Lia.
 From Tongo Require Import Lib.Bits Lib.Res Model.BocParse Model.CellHash Spec.ReprHash Model.Wallet
   Proofs.WalletP Proofs.WalletSigP.
+From Tongo Require Model.TlbCore Proofs.TlbCoreP.
 Import ListNotations.
 
 Ltac step n L := rewrite (take_app_n n) by L; cbn [bind fst snd].
@@ -74,22 +75,74 @@ Proof.
   change (N_of_bits [false]) with 0%N. unfold v5beta_id. reflexivity.
 Qed.
 
+(** v5r1 extended actions *)
+Lemma ok_inj' {A} (a b : A) : @Ok A a = Ok b -> a = b.
+Proof. intros H. injection H. auto. Qed.
+
+Lemma ext_one_bits x xb rest : ext_action_bits x = Ok xb -> ext_one (xb ++ rest) = Ok (x, rest).
+Proof.
+  unfold ext_action_bits, ext_one. destruct x as [a|a|b].
+  - destruct (TlbCore.addr_ok a) eqn:Ea; [|discriminate]. intros H; apply ok_inj' in H; subst xb. rewrite <- app_assoc.
+    rewrite (take_app_n 8) by apply u8_len. cbn [bind fst snd]. rewrite N_u8 by lia. cbn [N.eqb Pos.eqb].
+    rewrite TlbCoreP.addr_parse_bits by exact Ea. reflexivity.
+  - destruct (TlbCore.addr_ok a) eqn:Ea; [|discriminate]. intros H; apply ok_inj' in H; subst xb. rewrite <- app_assoc.
+    rewrite (take_app_n 8) by apply u8_len. cbn [bind fst snd]. rewrite N_u8 by lia. cbn [N.eqb Pos.eqb].
+    rewrite TlbCoreP.addr_parse_bits by exact Ea. reflexivity.
+  - intros H; apply ok_inj' in H; subst xb. rewrite <- app_assoc.
+    rewrite (take_app_n 8) by apply u8_len. cbn [bind fst snd]. rewrite N_u8 by lia. cbn [N.eqb Pos.eqb].
+    rewrite (take_app_n 1) by reflexivity. reflexivity.
+Qed.
+
+Lemma ext_tail_chain t : forall n, ext_tail t = Ok n ->
+  match n with None => t = [] | Some c => ext_chain_dec c = Ok t end.
+Proof.
+  induction t as [|x t IH]; intros n H.
+  - cbn in H. injection H as <-. reflexivity.
+  - cbn [ext_tail] in H. apply bind_ok in H. destruct H as (n' & Hn & H).
+    apply bind_ok in H. destruct H as (xb & Hx & H). apply bind_ok in H. destruct H as (c & Hc & H).
+    injection H as <-. apply mk_ok in Hc. destruct Hc as (-> & _). specialize (IH n' Hn).
+    unfold ocell. cbn [ext_chain_dec]. rewrite <- (app_nil_r xb), (ext_one_bits x xb [] Hx). cbn [bind fst snd].
+    destruct n' as [c'|]; cbn [opt_list].
+    + rewrite IH. reflexivity.
+    + subst t. reflexivity.
+Qed.
+
+Lemma decode_v5r1x_built wid valid seqno ms xs sg a p :
+  modes_ok ms -> length sg = 512%nat -> (seqno < 4294967296)%N ->
+  actions_cell ms = Ok a -> v5r1x_parts xs = Ok p -> xs <> Some [] ->
+  decode_v5r1x (ocell (u32 op_signed_external ++ u32 wid ++ u32 (unix32 valid) ++ u32 seqno ++ [true] ++
+                       fst p ++ sg) (a :: snd p)) =
+    Ok (mkdec (wid mod 4294967296) (unix32 valid) seqno 0 ms, xs).
+Proof.
+  intros Hm Hs Hq Ha Hp Hne. unfold decode_v5r1x. cbn [cdata crefs ocell].
+  step 32%nat ltac:(apply u32_len). rewrite op_ext_u32.
+  change (N.eqb op_signed_external op_signed_internal) with false.
+  change (N.eqb op_signed_external op_signed_external) with true. cbn [orb].
+  step 32%nat ltac:(apply u32_len). step 32%nat ltac:(apply u32_len). step 32%nat ltac:(apply u32_len).
+  step 1%nat ltac:(reflexivity). cbn [nth first_ref bind tl].
+  rewrite (actions_dec_cell ms a Hm Ha). cbn [bind].
+  rewrite N_u32_mod, (N_u32 (unix32 valid)) by apply unix32_bound. rewrite (N_u32 seqno) by exact Hq.
+  unfold v5r1x_parts in Hp. destruct xs as [[|x t]|].
+  - contradiction Hne. reflexivity.
+  - apply bind_ok in Hp. destruct Hp as (xb & Hx & Hp). apply bind_ok in Hp. destruct Hp as (n & Hn & Hp).
+    apply ok_inj' in Hp. subst p. cbn [fst snd]. rewrite <- !app_assoc.
+    step 1%nat ltac:(reflexivity). cbn [nth].
+    unfold ext_dec_body. rewrite (ext_one_bits x xb sg Hx). cbn [bind fst snd].
+    pose proof (ext_tail_chain t n Hn) as Ht. destruct n as [c|]; cbn [opt_list].
+    + rewrite Ht. cbn [bind fst snd]. rewrite (take_all 512) by exact Hs. reflexivity.
+    + subst t. cbn [bind fst snd]. rewrite (take_all 512) by exact Hs. reflexivity.
+  - apply ok_inj' in Hp. subst p. cbn [fst snd].
+    step 1%nat ltac:(reflexivity). cbn [nth bind fst snd]. rewrite (take_all 512) by exact Hs. reflexivity.
+Qed.
+
 Lemma decode_v5r1_built wid valid seqno ms sg a :
   modes_ok ms -> length sg = 512%nat -> (seqno < 4294967296)%N ->
   actions_cell ms = Ok a ->
   decode_v5r1 (ocell (v5r1_bits op_signed_external wid valid seqno ++ sg) [a]) =
     Ok (mkdec (wid mod 4294967296) (unix32 valid) seqno 0 ms).
 Proof.
-  intros Hm Hs Hq Ha. unfold decode_v5r1, v5r1_bits. cbn [cdata crefs ocell].
-  rewrite <- !app_assoc.
-  step 32%nat ltac:(apply u32_len). rewrite op_ext_u32.
-  change (N.eqb op_signed_external op_signed_internal) with false.
-  change (N.eqb op_signed_external op_signed_external) with true. cbn [orb].
-  step 32%nat ltac:(apply u32_len). step 32%nat ltac:(apply u32_len). step 32%nat ltac:(apply u32_len).
-  change ([true; false] ++ sg) with ([true] ++ [false] ++ sg).
-  step 1%nat ltac:(reflexivity). cbn [nth first_ref bind].
-  rewrite (actions_dec_cell ms a Hm Ha). cbn [bind].
-  step 1%nat ltac:(reflexivity). cbn [nth].
-  rewrite (take_all 512) by exact Hs. cbn [bind fst snd].
-  rewrite N_u32_mod, (N_u32 (unix32 valid)) by apply unix32_bound. rewrite N_u32 by exact Hq. reflexivity.
+  intros Hm Hs Hq Ha. unfold decode_v5r1.
+  pose proof (decode_v5r1x_built wid valid seqno ms None sg a ([false], []) Hm Hs Hq Ha eq_refl ltac:(discriminate)) as H.
+  cbn [fst snd] in H. unfold v5r1_bits. rewrite <- !app_assoc.
+  change ([true; false] ++ sg) with ([true] ++ [false] ++ sg). rewrite H. reflexivity.
 Qed.
